@@ -227,7 +227,7 @@ theorem getTextSlice_nocr {s : Src} (hcr : NoCR s) {p start stop : Nat} {nb : Bo
 
 /-! ## small facts about the leaf scanners -/
 
-theorem skipBlankInlineGo_stop (s : Src) : ∀ (n p : Nat), s.size - p ≤ n → s[skipBlankInlineGo s n p]? ≠ some 32 := by
+theorem sbiGo_stop (s : Src) : ∀ (n p : Nat), s.size - p ≤ n → s[skipBlankInlineGo s n p]? ≠ some 32 := by
   intro n
   induction n with
   | zero =>
@@ -242,7 +242,7 @@ theorem skipBlankInlineGo_stop (s : Src) : ∀ (n p : Nat), s.size - p ≤ n →
     · rename_i h; simpa using h
 
 theorem sbi_stop (s : Src) (p : Nat) : s[skipBlankInline s p]? ≠ some 32 :=
-  skipBlankInlineGo_stop s _ p (Nat.le_refl _)
+  sbiGo_stop s _ p (Nat.le_refl _)
 
 theorem nonBlank_self (s : Src) (a : Nat) : nonBlank s a a = false := by
   simp [nonBlank, nonBlankGo]
@@ -382,7 +382,7 @@ def pEndOf (s : Src) (p : Nat) : Nat :=
   | some b => if indent == 0 then p1 else if !isBytePatternContinuation b then p else p1
   | none => p1
 
-def roleOf : Termination → TextPos
+def pRoleOf : Termination → TextPos
   | .lineFeed => .lineStart
   | .crlf => .lineStart
   | .placeableStart => .continuation
@@ -397,7 +397,7 @@ theorem loop_unfold (s : Src) (n : Nat) (st : PatState) (p : Nat) (hlt : p < s.s
          match getTextSlice s p1 with
          | .ok (start, stop, nb, term) q =>
            (match st2Of s st p indent start stop nb term with
-            | some st2 => getPatternLoop s n { st2 with role := roleOf term } q
+            | some st2 => getPatternLoop s n { st2 with role := pRoleOf term } q
             | none => .panic "get_pattern: end - 1 underflow or text slice")
          | .err e q => .err e q
          | .panic m => .panic m
@@ -513,10 +513,10 @@ theorem text_push {s : Src} {r0 : TextPos} {st : PatState} {p : Nat} (hI : PInv 
         then stepMin st.commonIndent indent else st.commonIndent) =
       minL (lineInds s (.first r0) st.elements ++ lineInd s (endSt s (.first r0) st.elements) e))
     (hsv : survivesOf s start stop nb = some true → Surv s e)
-    (hrole : RoleOK s (nxt s e) (roleOf term) q) : PInv s r0 { st2 with role := roleOf term } q := by
+    (hrole : RoleOK s (nxt s e) (pRoleOf term) q) : PInv s r0 { st2 with role := pRoleOf term } q := by
   obtain ⟨e', sv, he', hsv', rfl⟩ := st2Of_push hne hcond h2
   rw [he] at he'
   cases he'
-  exact push_pinv hI e _ sv (roleOf term) q hok hci (fun h => hsv (by rw [hsv', h])) hrole
+  exact push_pinv hI e _ sv (pRoleOf term) q hok hci (fun h => hsv (by rw [hsv', h])) hrole
 
 end FluentProofs.Ser
